@@ -35,7 +35,9 @@ double vs_now(void);                /* virtual clock (seconds) */
 uint64_t vs_rand(void);             /* scenario-level randomness from the same seed (separate stream) */
 uint64_t vs_steps(void);
 int vs_tid(void);
+int vs_thread_alive(int tid); /* the controlled OS thread with this id has not exited */
 void vs_set_event_fn(void (*fn)(int kind, const void *p1, const void *p2, long v)); /* called for every runtime event before it is logged (monitors) */
+void vs_set_atomic_fn(void (*fn)(int kind, int width, const volatile void *addr, uint64_t a, uint64_t b)); /* called for every atomic op of a controlled thread just before it executes and before it is logged; kind: 1 load 2 store 3 clear 4 tas 5 cas ... (OPN[] in vsched.c); may call vs_name/vs_note */
 void vs_autoname_units(int on); /* name every work unit T<n> at its create event (E 1), unname at free (E 3) */
 void vs_set_unit_fn(const void *(*fn)(void)); /* returns the current work unit descriptor or NULL */
 const char *vs_addr_name(const void *p, char *buf, size_t n);
